@@ -2,7 +2,7 @@
 """Regenerates the seeded-changes table of DESIGN.md (between the SEEDTABLE markers) from seeded/*/meta.json."""
 import json, glob, os, re
 rows = []
-for d in sorted(glob.glob('/verif/seeded/*/')):
+for d in sorted(glob.glob('/verif/seeded/C*/')):
     m = json.load(open(d + 'meta.json'))
     name = os.path.basename(d.rstrip('/'))
     rows.append((m['property'], name, m['what'], m['needs_to_manifest'], '; '.join(m['caught_by'])))
